@@ -116,7 +116,7 @@ def run(ck: Check) -> int:
             tasks = tasks + t6
         results = pool.imap_unordered(H.work, tasks, chunksize=1)
         total = 0
-        fails = []
+        best = {}
         n_fail = {}
         for n, classes, fl, samples in results:
             total += n
@@ -127,11 +127,14 @@ def run(ck: Check) -> int:
             for x in fl:
                 key = (x['clause'], x['wclass'])
                 n_fail[key] = n_fail.get(key, 0) + 1
-                if x.get('session') is not None and sum(1 for y in fails if (y['clause'], y['wclass']) == key) < 3:
-                    fails.append(x)
+                if x.get('session') is not None:
+                    if any(y['session'] == x['session'] for y in best.get(key, [])):
+                        continue
+                    best.setdefault(key, []).append(x)
+                    best[key] = sorted(best[key], key=lambda y: (len(y['session']), str(y['session'])))[:3]
     ck.note(f'failure-free words per length: {[len(l) for l in levels]}; tasks {len(tasks)} (length-6 tasks {n6}); sessions {total}')
     # report: shortest witnesses first
-    fails.sort(key=lambda x: (len(x['session']), str(x['session'])))
+    fails = sorted((x for v in best.values() for x in v), key=lambda x: (len(x['session']), str(x['session'])))
     for x in fails:
         key = (x['clause'], x['wclass'])
         ck.violation(OID + x['clause'],
